@@ -16,7 +16,7 @@ pub fn prop() -> Prop {
     Prop {
         id: "C14",
         level: "exploration",
-        rule: "complete tables: each of the 7 builtins x a 70-value alphabet covering every type (null, both bools, boundary integers, floats incl. signed zero, tiny, huge, infinities and NaN, numeric / padded / signed / exponent / empty / non-ASCII text, empty and nested arrays, named and anonymous functions) with 1 argument; x a 12-value subset squared and cubed with 2 and 3 arguments; with no argument; identity t(v) for v of type t; round trips int(string(i)) for every i of the integer lattice and float(string(x)) for every float of the alphabet and every lattice integer below 2^53; every decimal text i.ff (i <= 20), d.fff, and k/100, k*1.1 (k <= 2000) through string() and back; magnitude ladders (floats m x 10^k for |k| <= 40 and m x 2^k for |k| <= 70, integers 10^k and neighbours, digit strings of 1..24 digits, print with N placeholders for N up to 253 and N-1 / N / N+1 arguments); print with every format string of <= 4 pieces over {{}, {, }, a, space, é, €, 😀} x 0..4 further arguments drawn from 5 values, and with a first argument of every type. Oracle: the reference functions of the model (U11 leniency for non-canonical number spellings). Non-trivial = the model defines the outcome; distinct = distinct texts",
+        rule: "complete tables: each of the 7 builtins x a 70-value alphabet covering every type (null, both bools, boundary integers, floats incl. signed zero, tiny, huge, infinities and NaN, numeric / padded / signed / exponent / empty / non-ASCII text, empty and nested arrays, named and anonymous functions) with 1 argument; x a 12-value subset squared and cubed with 2 and 3 arguments; with no argument; identity t(v) for v of type t; round trips int(string(i)) for every i of the integer lattice and float(string(x)) for every float of the alphabet and every lattice integer below 2^53; digit patterns (every integer to 20 000, every a*10^k + b, sums of tenths, integers just above 2^53..2^59, 26 awkward number texts x 6 builtins, nested arrays with quotes / braces / integral floats, arguments containing placeholders); every decimal text i.ff (i <= 20), d.fff, and k/100, k*1.1 (k <= 2000) through string() and back; magnitude ladders (floats m x 10^k for |k| <= 40 and m x 2^k for |k| <= 70, integers 10^k and neighbours, digit strings of 1..24 digits, print with N placeholders for N up to 253 and N-1 / N / N+1 arguments); print with every format string of <= 4 pieces over {{}, {, }, a, space, é, €, 😀} x 0..4 further arguments drawn from 5 values, and with a first argument of every type. Oracle: the reference functions of the model (U11 leniency for non-canonical number spellings). Non-trivial = the model defines the outcome; distinct = distinct texts",
         assumptions: &["reference builtins of refint.rs (DESIGN 4.2 Builtins)", "U11: non-canonical number spellings (padding, +5, 1e5, inf, nan) are not compared"],
         run,
         replay,
@@ -254,6 +254,62 @@ fn run_tables(sh: &mut Shard) {
         let y = k as f64 * 1.1;
         case(sh, "decimal-text", vec![es(infix(calln("float", vec![calln("string", vec![float_expr(y)])]), Operator::Eq, float_expr(y)))]);
     }
+    // digit patterns: every integer up to 20 000, and every a*10^k + b (zeros in the middle, trailing zeros) for
+    // a, b <= 12 and k <= 17, both signs, through string() and back; sums of tenths as floats
+    for i in 0..=20_000i64 {
+        case(sh, "digit-patterns", vec![es(calln("string", vec![lit_expr(i)]))]);
+    }
+    for k in 1..=17u32 {
+        for a in 1..=12i64 {
+            for b in 0..=12i64 {
+                let v = a * 10i64.pow(k) + b;
+                if v >= (1 << 60) {
+                    continue;
+                }
+                for sign in [1i64, -1] {
+                    case(sh, "digit-patterns", vec![es(array(vec![calln("string", vec![lit_expr(sign * v)]), infix(calln("int", vec![calln("string", vec![lit_expr(sign * v)])]), Operator::Eq, lit_expr(sign * v))]))]);
+                }
+                case(sh, "digit-patterns", vec![es(calln("float", vec![lit_expr(v)]))]);
+                case(sh, "digit-patterns", vec![es(calln("int", vec![string(&format!("{v}"))]))]);
+            }
+        }
+    }
+    for i in 0..=30i64 {
+        for j in 0..=30i64 {
+            let e = infix(flt(i as f64 / 10.0), Operator::Add, flt(j as f64 / 10.0));
+            case(sh, "digit-patterns", vec![es(calln("string", vec![e.clone()]))]);
+            case(sh, "digit-patterns", vec![es(calln("int", vec![infix(e, Operator::Multiply, flt(10.0))]))]);
+        }
+    }
+    for k in 53..60u32 {
+        for off in [1i64, 3, 5, 1001, 123_457] {
+            let v = (1i64 << k) + off;
+            case(sh, "digit-patterns", vec![es(array(vec![calln("float", vec![lit_expr(v)]), calln("string", vec![calln("float", vec![lit_expr(v)])]), calln("int", vec![calln("float", vec![lit_expr(v)])])]))]);
+        }
+    }
+    for t in ["12.50", "-0", "007", "-007", "0.0", "-0.0", "00.5", "5.", ".5", "1152921504606846975", "1152921504606846976", "-1152921504606846976", "-1152921504606846977", "9223372036854775807", "9223372036854775808", " 12", "12 ", "1 2", "0x10", "1,5", "1.5.2", "--1", "+-1", "1e", "e1", "٣"] {
+        for b in ["int", "float", "bool", "lengte", "string", "type"] {
+            case(sh, "digit-patterns", vec![es(calln(b, vec![string(t)]))]);
+        }
+    }
+    // nested arrays with quotes, braces and integral floats, printed and converted
+    for v in [
+        array(vec![array(vec![array(vec![flt(1.0), flt(-0.0), string("q\"q"), string("{}")]), string("a b")]), flt(2.5), boolean(false)]),
+        array(vec![string(""), array(vec![]), array(vec![array(vec![])])]),
+        array(vec![flt(1e15), flt(1e16), flt(1e17), flt(123456789012345680.0), flt(0.000001), flt(1e-7)]),
+    ] {
+        case(sh, "digit-patterns", vec![es(calln("string", vec![v.clone()]))]);
+        case(sh, "digit-patterns", vec![es(calln("print", vec![string("{} {}"), v.clone(), v.clone()]))]);
+        case(sh, "digit-patterns", vec![es(calln("print", vec![v.clone()]))]);
+        case(sh, "digit-patterns", vec![es(array(vec![calln("lengte", vec![v.clone()]), calln("bool", vec![v.clone()]), calln("type", vec![v])]))]);
+    }
+    // an argument whose text contains a placeholder, followed by another placeholder
+    for fmt in ["{} {}", "{}{}", "a{}b{}c", "{} {} {}", "{{}} {}", "{} {{}}"] {
+        for a1 in [string("{}"), string("x{}y"), string("{"), string("}"), array(vec![string("{}")])] {
+            case(sh, "digit-patterns", vec![es(calln("print", vec![string(fmt), a1.clone(), int(7), string("z")]))]);
+            case(sh, "digit-patterns", vec![es(calln("print", vec![string(fmt), int(7), a1]))]);
+        }
+    }
     // print with N placeholders and N, N-1, N+1 arguments (the call instruction carries at most 255)
     for n in [1usize, 2, 3, 5, 7, 8, 9, 15, 16, 17, 31, 32, 33, 63, 64, 65, 127, 128, 129, 200, 253] {
         for delta in [-1i64, 0, 1] {
@@ -277,7 +333,7 @@ fn replay(sh: &mut Shard, case: &Value) {
 }
 
 fn vacuity(m: &Merged) -> Option<String> {
-    for fam in ["magnitude", "decimal-text", "arity-0", "unary", "idempotent", "binary", "ternary", "roundtrip-int", "roundtrip-float", "print-format", "print-first"] {
+    for fam in ["magnitude", "decimal-text", "digit-patterns", "arity-0", "unary", "idempotent", "binary", "ternary", "roundtrip-int", "roundtrip-float", "print-format", "print-first"] {
         if m.counters.get(&format!("family:{fam}")).copied().unwrap_or(0) == 0 {
             return Some(format!("family {fam} produced no case"));
         }
